@@ -46,6 +46,8 @@ def run(ctx):
     ctx.do(C02.rule_init_loops, rule_id="C01.constructor-loops-complete")
     from . import C15 as _C15
     ctx.do(_C15.rule_branch_table, rule_id="C01.timestamp-pipeline")
+    from . import C15 as _C15v
+    ctx.do(_C15v.rule_value_object, rule_id="C01.timestamp-pipeline")
     from .hidden_state import rule_no_hidden_state
     ctx.do(rule_no_hidden_state, "C01.history-independence")
 
